@@ -1,4 +1,6 @@
 //! egverif — bounded exhaustive verification harness for embedded-graphics (see /verif/DESIGN.md)
 pub mod catalog;
 pub mod fw;
+pub mod imgs;
 pub mod targets;
+pub mod texts;
